@@ -372,3 +372,55 @@ def run_generate_between(ctx, rng):
     finally:
         case.cleanup()
         shutil.rmtree(case.base, ignore_errors=True)
+
+
+def run_retotal(ctx, rng):
+    """One scheduler process runs two experiment blocks one after the other; the second one defines the same token again
+    with a larger total.  Whatever the library makes of the new definition, the bodies running at the same time must
+    never hold more than the total that is in force (the larger one bounds both)."""
+    case = enga.Case(ctx.scratch / f"t{rng.randrange(10**9)}")
+    w = {"kind": "retotal"}
+    try:
+        name = f"retotal{rng.randrange(10**6)}"
+        t1 = rng.choice([1, 2])
+        t2 = t1 + rng.choice([1, 2])
+        amounts = {}
+        x = 0
+        first = []
+        for _ in range(rng.randint(2, 3)):
+            n = rng.randint(1, t1)
+            first.append({"x": x, "tokens": [{"tok": 0, "n": n}], "hold": 100})
+            amounts[x] = n
+            x += 1
+        second = []
+        for _ in range(rng.randint(8, 10)):
+            n = rng.randint(1, t1)  # fits under both definitions (whether the new total takes effect inside one process is not part of the property)
+            second.append({"x": x, "tokens": [{"tok": 0, "n": n}], "hold": rng.choice([100, 200])})
+            amounts[x] = n
+            x += 1
+        plan = {"name": "xp", "env": case.job_env(go=False), "before": [{"jobs": first, "tokens": [{"name": name, "total": t1}]}], "jobs": second, "tokens": [{"name": name, "total": t2}]}
+        w.update({"first_total": t1, "second_total": t2, "first": first, "second": second})
+        h = case.start(plan, cert=True)
+        if not case.wait_exit(h, 180):
+            msg = enga.quiescent_hang(case, h)
+            if msg:
+                ctx.violation("scheduler-hangs-at-quiescence:retotal", msg, w)
+            else:
+                ctx.inconclusive("retotal: scheduler did not finish within the watchdog")
+            return
+        r = case.result(h)
+        ctx.count("retotal_cases")
+        ev = enga.parse_body(case.body_log())
+        w["log"] = case.body_log()[:40]
+        if r is None or r["outcome"] != "returned" or any(s != "DONE" for s in r["states"].values()):
+            ctx.violation("stress-final-states:retotal", f"the scheduler ended {r and r['outcome']} with {r and r['states']}", w)
+        over = enga.capacity_sweep([e for e in ev if e[1] >= len(first)], amounts, t2)
+        if over:
+            ctx.violation("capacity-exceeded:token-defined-again", f"second definition of the token (total {t2}, first {t1}): running bodies held {over[0]} ({over[1]}); log {case.body_log()}", w)
+        over1 = enga.capacity_sweep([e for e in ev if e[1] < len(first)], amounts, t1)
+        if over1:
+            ctx.violation("capacity-exceeded-across-processes", f"first block, total {t1}: running bodies held {over1[0]}", w)
+        ctx.case({"k": "retotal", "t1": t1, "t2": t2, "n": len(second)}, nontrivial=True, sample={"totals": [t1, t2], "log": case.body_log()[:10]}, max_samples=1)
+    finally:
+        case.cleanup()
+        shutil.rmtree(case.base, ignore_errors=True)
